@@ -24,6 +24,7 @@ EXPLANATION = (
     "first, a move requires improvement > 0 (strict) or > the forcing function, the running poll best starts at 0 and is replaced on '>' only, "
     "and the initial incumbent is argmin over the filled part of the log with point and value taken at the same index. R4 fsd = 0 on the "
     "deterministic branch of the initialisation. Relies on the log storing the value unchanged (C12-R3)."
+    " R4 also requires the deterministic fsd = 0 to carry no guard beyond the noise level."
 )
 
 GROUP = ("u", "yval", "fval", "fsd")
